@@ -89,6 +89,25 @@ def cases(seed, tier):
         "suspenders": {"s0": {"cls": "SuspendBoolHigh", "signal": "sigS", "kwargs": {"sleep": rng.choice([0, 0.5, 2.0])}}},
         "script": [{"do": "install_suspender", "sus": "s0"}, {"do": "call", "plan": body, "main": True}],
     }
+    # a second suspender on its own signal in some worlds (suspensions on top of each other), and signals that flap:
+    # drawn from a stream of their own so that the rest of the case does not depend on them
+    rng2 = gen.rng_for(ID, seed, "second-suspender")
+    two = rng2.random() < 0.4
+    if two:
+        specs["sigT"] = {"kind": "signal", "initial": 0}
+        case["suspenders"]["s1"] = {"cls": "SuspendBoolHigh", "signal": "sigT", "kwargs": {"sleep": rng2.choice([0, 0.5, 2.0])}}
+        case["script"].insert(1, {"do": "install_suspender", "sus": "s1"})
+
+    def trip_args(_rng):
+        a = generic.trip_args(_rng)
+        if two and rng2.random() < 0.5:
+            a["signal"] = "sigT"
+        if rng2.random() < 0.2:
+            # (never twice in the same instant: one device thread delivers its updates one after the other)
+            a["after"] = a["after"] or 0.05
+            a["then"] = [[rng2.choice([0.05, 0.1, 0.4, 1.0]), 1], [rng2.choice([0.05, 0.2, 1.0]), 0]]
+        return a
+
     dry, dv, n = generic.dry_run(case)
     ci = generic.main_index(case)
     K = 10 if tier == "quick" else 20
@@ -104,7 +123,7 @@ def cases(seed, tier):
             inj = gen.gen_injections(rng, n, kinds=kinds, k=rng.choice([1, 2, 3]), slack=4)
         for i in inj:
             if i["do"] == "trip":
-                i["args"] = generic.trip_args(rng)
+                i["args"] = trip_args(rng)
         c["script"][ci]["inject"] = inj
         decs = []
         for _ in range(6):
@@ -113,7 +132,7 @@ def cases(seed, tier):
                 d["inject"] = gen.gen_injections(rng, n, kinds=kinds, k=1, slack=4)
                 for i in d["inject"]:
                     if i["do"] == "trip":
-                        i["args"] = generic.trip_args(rng)
+                        i["args"] = trip_args(rng)
             decs.append(d)
         c["script"][ci]["decisions"] = decs
         c["script"][ci]["final"] = "resume"
@@ -135,7 +154,7 @@ def cases(seed, tier):
         kind = rng.choice(kinds)
         inj = {"id": "x0", "at": {"msg": n_, "plus": rng.choice([0, 1, 2])}, "do": kind}
         if kind == "trip":
-            inj["args"] = generic.trip_args(rng)
+            inj["args"] = trip_args(rng)
         c["script"][ci]["inject"] = [inj]
         c["script"][ci]["decisions"] = [{"do": "resume"}] * 3
         c["script"][ci]["final"] = "resume"
